@@ -1413,7 +1413,8 @@ func runC02(c *gen.Ctx) error {
 			in.Mode = map[int]string{5: "grpcserver", 6: "grpcclient"}[k%7]
 			in.Versions, in.Protos, in.Codecs, in.Comps = []int{2}, []int{2}, []int{1}, []int{1, 2}
 		}
-		if c.Thorough() && k%5 == 4 {
+		if c.Thorough() && k%5 == 4 && in.Mode != "grpcserver" && in.Mode != "grpcclient" {
+			// (the stand-alone gRPC peers link identity and gzip only: testing/grpc-impls-config.yaml)
 			in.Comps = allComps
 		}
 		// every third run with the runner's --trace (k = 1 client, 4 client, 7 both, 10 server, 13 grpcclient ...)
